@@ -20,7 +20,7 @@ import traceback
 
 from . import VERIF, core, findings, minimise, seeds
 
-MACHINES = {"C13": "sim.machines.c13", "C14": "sim.machines.c14"}
+MACHINES = {"C12": "sim.machines.c12", "C13": "sim.machines.c13", "C14": "sim.machines.c14"}
 
 TIERS = {
     # wall budget for the search phase (s), per-run cap (s), max runs
@@ -100,6 +100,8 @@ def batch(prop: str, tier: str, batch_seed: int, *, workers: int | None = None, 
     i = 0
     with cf.ProcessPoolExecutor(max_workers=workers, mp_context=ctx, initializer=_init_worker) as ex:
         pending = set()
+        known_futs = [(k, ex.submit(minimise.replay_quiet, os.path.join(VERIF, k["replay"]))) for k in known
+                      if k.get("status") == "known" and k.get("property") == prop and k.get("replay")]
         try:
             while True:
                 while len(pending) < workers * 2 and time.time() < deadline and i < tcfg["max_runs"]:
@@ -118,6 +120,7 @@ def batch(prop: str, tier: str, batch_seed: int, *, workers: int | None = None, 
                     for p in list(ex._processes.values()):
                         p.kill()
                     break
+            cf.wait([f for _, f in known_futs], timeout=tcfg["run_cap"] * 2)
         except cf.process.BrokenProcessPool as e:
             harness_errors.append(f"process pool broke: {e}")
     search_wall = time.time() - t_start
@@ -125,15 +128,14 @@ def batch(prop: str, tier: str, batch_seed: int, *, workers: int | None = None, 
         if r.get("harness_error"):
             harness_errors.append(f"seed {r['seed']}: {r['harness_error']}")
 
-    # ---- known findings: replay each committed replay file first (deterministic re-detection) --------
+    # ---- known findings: each committed replay file was replayed alongside the search (deterministic
+    # re-detection); a listed finding prints its line iff it still reproduces --------------------------
     exit_code = 0
     seen_known: set[str] = set()
-    for k in known:
-        if k.get("status") != "known" or k.get("property") != prop or not k.get("replay"):
-            continue
+    for k, fut in known_futs:
         path = os.path.join(VERIF, k["replay"])
         try:
-            got, rec = minimise.replay_quiet(path)
+            got, rec = fut.result(timeout=5)
         except Exception as e:  # noqa: BLE001
             harness_errors.append(f"known finding {k['id']}: replay failed: {type(e).__name__}: {e}")
             continue
